@@ -130,11 +130,13 @@ def run(tier):
         if k in seen:
             continue
         seen.add(k)
-        # reproduce alone in a fresh process
+        # reproduce in a fresh process: a field/polynomial call alone; a Reed-Solomon call with the whole request history of ITS encoder
+        # object (the property quantifies over request orders, so a defect may need the earlier requests to show)
         job = {kk: vv for kk, vv in b["event"].items() if kk not in ("res", "i")}
         hist = [job]
-        if b["why"] == "history-dependent":
-            hist = [{kk: vv for kk, vv in e.items() if kk not in ("res", "i")} for e in evs[:b["event"]["i"]] if e["op"] == "rs" and e["field"] == job["field"]]
+        if b["event"]["op"] == "rs":
+            hist = [{kk: vv for kk, vv in e.items() if kk not in ("res", "i")} for e in evs[:b["event"]["i"]]
+                    if e["op"] == "rs" and (e["obj"] == job["obj"] or (b["why"] == "history-dependent" and e["field"] == job["field"]))]
         sub = vlib.run_drive(drive, hist, chk.work, name="repro")
         _, bad2, _, _ = vlib.validate_traces(chk.work, "TraceGF", "TraceGF.cfg", [sub])
         if not bad2:
